@@ -364,3 +364,52 @@ def soft_link(ctx, cfg):
         return
     res = out.value[0] if isinstance(out.value, tuple) else out.value
     ctx.ensure("message_recovered", tuple(res.shape) == (1, k) and SP.all_eq(P(res), P(msg)))
+
+
+# ---------------------------------------------------------------------------------------- consecutive transmissions (state carried between calls)
+def _consec_cfgs(tier):
+    out = []
+    for code, kind in ((Cfg("hamming", 3, False, "left"), "syndrome"), (Cfg("repetition", 5), "brute"), (Cfg("repetition", 3), "syndrome")):
+        for g in ("gray", "bin"):
+            out.append(Cfg("consecutive", str(code), kind, g, CODES_Q.index((code, kind)) if (code, kind) in CODES_Q else -1))
+    return out
+
+
+_CONSEC_CODES = {"hamming(3,False,left)": (Cfg("hamming", 3, False, "left"), "syndrome"), "repetition(5)": (Cfg("repetition", 5), "brute"), "repetition(3)": (Cfg("repetition", 3), "syndrome")}
+
+
+@obligation(
+    "C09.consecutive_transmissions",
+    function=FM + "channel_code.py:ChannelCodeModel.__init__; kaira/modulations/pi4qpsk.py:Pi4QPSKModulator.forward; kaira/modulations/pi4qpsk.py:Pi4QPSKDemodulator.forward",
+    configs=_consec_cfgs,
+    max_paths=8000,
+    timeout_ms=60000,
+    crosscheck=1,
+)
+def consecutive_transmissions(ctx, cfg):
+    """one ChannelCodeModel with the pi/4-QPSK pair (a scheme with memory) in its DEFAULT mode, reused for three consecutive batched
+    transmissions with an odd number of symbols per row: every transmission returns its message (modulator and demodulator must
+    advance their alternating-constellation state in step)"""
+    from kaira.channels.identity import PerfectChannel
+    from kaira.constraints.identity import IdentityConstraint
+    from kaira.models.channel_code import ChannelCodeModel
+
+    code, kind = _CONSEC_CODES[cfg[1]]
+    enc = codes.build(code)
+    dec = _dec(kind, code)
+    modulator, demodulator = mods.build(Cfg("pi4qpsk", cfg[3]))
+    k, n = enc.generator_matrix.shape
+    nb = _blocks_needed(n, 2)
+    model = ChannelCodeModel(encoder=enc, constraint=IdentityConstraint(), modulator=modulator, channel=PerfectChannel(), demodulator=demodulator, decoder=dec)
+    msgs = [ctx.bits(f"m{i}", (1, nb * k)) for i in range(3)]
+
+    def three_calls(a, b, c):
+        return [model(a), model(b), model(c)]
+
+    out = ctx.call(three_calls, *msgs)
+    ctx.ensure("returns", out.ok, note=repr(out.exc) if not out.ok else f"{nb * n // 2} symbols per transmission")
+    if not out.ok:
+        return
+    for i, res in enumerate(out.value):
+        res = res[0] if isinstance(res, tuple) else res
+        ctx.ensure(f"transmission_{i}_recovered", tuple(res.shape) == (1, nb * k) and SP.all_eq(P(res), P(msgs[i])))
